@@ -28,8 +28,8 @@ func init() {
 			hs := c.Pick(6, 9)
 			return []mon.Family{
 				{Name: "allpaths-small", N: (1 << uint(hs+1)) - 1, Run: c04Small},
-				{Name: "allpaths-windows", N: c.Pick(4000, 150000), Run: c04Windows},
-				{Name: "decode", N: c.Pick(3000, 120000), Run: c04Decode},
+				{Name: "allpaths-windows", N: c.Pick(20000, 1500000), Run: c04Windows},
+				{Name: "decode", N: c.Pick(12000, 1000000), Run: c04Decode},
 			}
 		},
 	})
